@@ -8,9 +8,15 @@
 package zzverif
 
 import (
+	"bytes"
+	"context"
 	"encoding/json"
 	"fmt"
 	"os"
+	"os/exec"
+	"path/filepath"
+
+	"github.com/open-policy-agent/opa/rego"
 )
 
 type replay struct {
@@ -144,3 +150,104 @@ func TrackWrites(on bool) {}
 
 // GlobalWrites returns the number of stores to package-level state recorded so far.
 func GlobalWrites() int { return 0 }
+
+// ---- environment model API (meaningful only under the symbolic executor) ----
+
+func StubOn(name string)                                   {}
+func SetLibResult(name string, text string, fail bool)     {}
+func SetArgs(args []string)                                {}
+func FSPut(path string, content string, readonly bool)     {}
+func FSGet(path string) (string, bool)                     { return "", false }
+func Stdout() string                                       { return "" }
+func Stderr() string                                       { return "" }
+func ExitCode() int                                        { return -1 }
+func Log() []string                                        { return nil }
+func LastEncoded() interface{}                             { return nil }
+func SetFlattenResult(v interface{})                       {}
+func SetEvalResult(v interface{})                          {}
+func RegoNewCount() int                                    { return 0 }
+func RegoNewOption(i int, key string) interface{}          { return nil }
+
+// RegoCompiles reports whether the linked OPA accepts the module text.
+func RegoCompiles(code string) bool {
+	_, err := rego.New(rego.Query("data"), rego.Module("m.rego", code)).PrepareForEval(context.Background())
+	return err == nil
+}
+
+// ReplayInput returns a raw replay input (native twins of stubbed harnesses).
+func ReplayInput(name string) (interface{}, bool) {
+	load()
+	v, ok := rp.Inputs[name]
+	return v, ok
+}
+
+// ReplayBytes returns a byte-string input recorded by the solver.
+func ReplayBytes(name string) []byte {
+	v, ok := ReplayInput(name)
+	if !ok {
+		return nil
+	}
+	var b []byte
+	for _, x := range v.([]interface{}) {
+		b = append(b, byte(x.(float64)))
+	}
+	return b
+}
+
+// ReplayInt returns an int/choice input (0 when absent).
+func ReplayInt(name string) int {
+	if v, ok := ReplayInput(name); ok {
+		return int(v.(float64))
+	}
+	return 0
+}
+
+// ReplayBool returns a bool input (false when absent).
+func ReplayBool(name string) bool {
+	if v, ok := ReplayInput(name); ok {
+		return v.(bool)
+	}
+	return false
+}
+
+// RepoRoot locates the repository root from the test's working directory.
+func RepoRoot() string {
+	d, _ := os.Getwd()
+	for i := 0; i < 8; i++ {
+		if _, err := os.Stat(filepath.Join(d, "go.mod")); err == nil {
+			return d
+		}
+		d = filepath.Dir(d)
+	}
+	return "/repo"
+}
+
+// BuildACV builds the real CLI from the working tree into dir and returns its path.
+func BuildACV(dir string) string {
+	bin := filepath.Join(dir, "acv")
+	cmd := exec.Command("go", "build", "-o", bin, "./cmd")
+	cmd.Dir = RepoRoot()
+	out, err := cmd.CombinedOutput()
+	if err != nil {
+		panic(fmt.Sprintf("building acv failed: %v\n%s", err, out))
+	}
+	return bin
+}
+
+// RunCmd runs a command and returns stdout, stderr and the exit status.
+func RunCmd(dir string, name string, args ...string) (string, string, int) {
+	cmd := exec.Command(name, args...)
+	cmd.Dir = dir
+	var so, se bytes.Buffer
+	cmd.Stdout, cmd.Stderr = &so, &se
+	err := cmd.Run()
+	code := 0
+	if err != nil {
+		if ee, ok := err.(*exec.ExitError); ok {
+			code = ee.ExitCode()
+		} else {
+			code = -1
+		}
+	}
+	return so.String(), se.String(), code
+}
